@@ -6,7 +6,10 @@ VERIF = os.path.dirname(os.path.dirname(os.path.abspath(__file__)))
 sys.path.insert(0, VERIF)
 from sa.loader import Repo
 bid = sys.argv[1]
-src = os.path.join(VERIF, "benign", bid, "patch.diff")
+src = os.path.join(VERIF, os.environ.get("BENIGN_DIR", "benign"), bid, "patch.diff")
+for _d in ("benign", "benign2", "benign3"):
+    if not os.path.exists(src):
+        src = os.path.join(VERIF, _d, bid, "patch.diff")
 if not os.path.exists(src):
     src = os.path.join(VERIF, "seeded", bid, "patch.diff")
 scratch = tempfile.mkdtemp(prefix="bview-")
